@@ -122,7 +122,16 @@ def check(chk):
             chk.judge('errors.append(error)' in s and 'remaining_callbacks.remove(conn)' in s and 'callback(self, errors)' in s, 'C20.report', inner,
                       'legacy pool accumulates connection errors and reports them', 'legacy pool error accumulation changed')
         else:
-            chk.judge('callback(self, errors)' in src(inner) and '[] if not error else [error]' in src(inner), 'C20.report', inner,
+            ea = [n for n in body_walk(inner) if isinstance(n, ast.Assign) and src(n.targets[0]) == 'errors']
+            okv = False
+            if len(ea) == 1:
+                from ..fold import Folder, Unfoldable
+                try:
+                    fo = Folder(mod_of(inner))
+                    okv = fo.eval(ea[0].value, env={'error': None}) == [] and fo.eval(ea[0].value, env={'error': 'E'}) == ['E']
+                except Unfoldable:
+                    okv = False
+            chk.judge('callback(self, errors)' in src(inner) and okv, 'C20.report', inner,
                       'v3 pool reports the connection\'s error', 'v3 pool no longer reports the connection error')
 
     # ---- new connections take the pool keyspace before publication
@@ -176,3 +185,7 @@ def check(chk):
     s = src(sb)
     chk.judge('self.keyspace = keyspace' in s and s.index('wait_for_response') < s.index('self.keyspace = keyspace'), 'C20.confirm', sb,
               'set_keyspace_blocking records the keyspace after the server answered', 'blocking variant records the keyspace before confirmation')
+
+
+def mod_of(node):
+    return node._mod
